@@ -13,6 +13,7 @@ import LinVerif.Lemmas.C20Bits
 import LinVerif.Lemmas.C20Louds
 import LinVerif.Lemmas.C20LoudsGet
 import LinVerif.Lemmas.C20Wire
+import LinVerif.Lemmas.C20IterMachine
 import LinVerif.Model.Louds
 import LinVerif.Model.TrieBucket
 import LinVerif.Generated.C20
@@ -401,10 +402,11 @@ level order (node ids) and `flatItems t` the labels in vector order,
   level-order index of exactly that child node;
 * at a label without child, `valuePos(pos)` indexes exactly that label's value.
 These compose (with the label scan, `nodeSize`, and the prefix/suffix lookup through the
-hasPrefix/hasSuffix rank vectors) into `louds_get_refines_tree` below. What is NOT proved (tied by
-the array-level correspondence instead): ordered iteration / `Seek` over the vectors (the
-iterator's explicit-stack stepping `Next`/`Prev`/`setAt`; `loudsIter (encode t) = iter t`) and the
-byte layout of `Write`/`UnmarshalBinary`. -/
+hasPrefix/hasSuffix rank vectors) into `louds_get_refines_tree` and (with the stack machine) into
+`louds_iter_refines_tree` below. What is NOT proved (tied by the correspondence ops `sseek`,
+`sprefix`, `sriter` instead): `Seek(k)` for a non-empty `k` and the prefix iterator with a
+non-empty prefix over the vectors (`LoudsIter.seekLoop`, `searchGreaterThan`'s binary search,
+`moveToRightMostKey`), and backward iteration (`Prev` / `SeekToLast`). -/
 theorem louds_refines_tree_partial {kvs : List KV} {t : Node} (h : Buildable kvs) (ht : build kvs = some t) :
     (∀ n, n < (bfs t).length → firstLabelPos (encode t) n = offset t n) ∧
     (∀ pos l c, (flatItems t)[pos]? = some (.child l c) → (bfs t)[childNodeID (encode t) pos]? = some c) ∧
@@ -435,6 +437,29 @@ theorem louds_get_eq_lookup_partial {kvs : List KV} {t : Node} (eon : Bool) (h :
     (ht : build kvs = some t) (hff : eon = false → ∀ v, kvs ≠ [([255], v)]) (key : Key) :
     loudsGet eon (encode t) key = lookup key kvs := by
   rw [louds_get_refines_tree eon h ht key, get_eq_lookup_partial eon h ht hff key]
+
+/-- **LOUDS iteration = tree iteration = the sorted pairs**: the Go iterator as an explicit stack
+machine over the flat vectors (`LoudsIter`: `SeekToFirst`, then `Next` = climb while at the end
+of a node through the louds bits, `setAt`, `moveToLeftMostKey` with `childNodeID` /
+`firstLabelPos`, the per-level `posInTrie` / `nodeID` / `prefixLen` arrays and the incremental
+`keyBuf`, `Key()` with the terminator flag and the suffix vector, `Value()` through `valuePos`)
+enumerates exactly the in-order traversal of the tree, i.e. the sorted pair list -/
+theorem louds_iter_refines_tree {kvs : List KV} {t : Node} (h : Buildable kvs) (ht : build kvs = some t) :
+    LoudsIter.iterAll (encode t) = iter t ∧ LoudsIter.iterAll (encode t) = kvs := by
+  obtain ⟨t', ht', hit, hwf, _⟩ := build_spec h
+  rw [ht] at ht'; cases ht'
+  have := iterAll_eq_iter hwf
+  exact ⟨this, by rw [this, hit]⟩
+
+/-- the empty-prefix iterator over the vectors (`NewPrefixIterator(nil)`: the enumeration used by
+`TrieBucket.Write`, `CollectKVs`, `FindValuesByRegexp` and the suffix / contains like scans) is
+`Seek(nil)` = `SeekToFirst` followed by the same `Next` loop: it enumerates the sorted pairs
+(both variants of `Seek`) -/
+theorem louds_prefix_nil_refines_tree {kvs : List KV} {t : Node} (step : Bool) (h : Buildable kvs)
+    (ht : build kvs = some t) : LoudsIter.prefixAll step (encode t) [] = kvs := by
+  obtain ⟨t', ht', hit, hwf, _⟩ := build_spec h
+  rw [ht] at ht'; cases ht'
+  rw [prefixAll_nil_eq_iter hwf step, hit]
 
 /-- the encoded label / hasChild / louds / value vectors are the per-node rows concatenated in
 level order (what `trie.Init` / `bitVector.Init` do with the builder's levels) -/
